@@ -215,6 +215,13 @@ func podWebhook(ctx context.Context, req *webhook.AdmissionRequest, client clien
 		}
 
 	}
+	// defaults are only filled for eth0, a network that still has no vSwitch can never be
+	// allocated by the pod controller, so refuse it instead of admitting it incomplete
+	for _, n := range networks.PodNetworks {
+		if len(n.VSwitchOptions) == 0 {
+			return admission.Denied(fmt.Sprintf("vSwitchOptions is not set for interface %s", n.Interface))
+		}
+	}
 	pnaBytes, err := json.Marshal(networks)
 	if err != nil {
 		return webhook.Errored(1, err)
